@@ -49,7 +49,13 @@ type Case struct {
 	SlowWriteMs int `json:"slow_heartbeat_write_ms,omitempty"`
 }
 
-type beat struct{ start, end time.Time }
+// beat is one heart-beat of the holder: start = its open was issued, end = its time stamp (chtimes) was completed;
+// idleBefore = time between the completion of the previous heart-beat's last operation and this open being issued (what
+// the library slept: operations themselves may be held up by the disk for any length of time).
+type beat struct {
+	start, end time.Time
+	idleBefore time.Duration
+}
 
 type world struct {
 	mu         sync.Mutex
@@ -63,6 +69,7 @@ type world struct {
 	frozen     map[string]bool
 	lastDetail map[string]string
 	lastProbe  map[string]probe
+	lastHBOp   time.Time // completion of the holder's latest operation on the heart-beat file
 }
 
 // probe is what an observer's decisive stat was served with.
@@ -78,14 +85,23 @@ func (w *world) after(op *fsx.Op) {
 	defer w.mu.Unlock()
 	switch {
 	case op.Client == "holder" && op.Path == w.hbPath && op.Kind == "openfile":
-		// start of a heart-beat write
+		// start of a heart-beat
 		w.opens[op.Seq] = time.Unix(0, op.Start)
-		w.beats = append(w.beats, beat{start: time.Unix(0, op.Start)})
-	case op.Client == "holder" && op.Path == w.hbPath && (op.Kind == "write" || op.Kind == "writestring") && op.Err == "":
-		// the heart-beat "has been written" when the write of its content returns
-		if n := len(w.beats); n > 0 && w.beats[n-1].end.IsZero() {
+		b := beat{start: time.Unix(0, op.Start)}
+		if !w.lastHBOp.IsZero() {
+			b.idleBefore = b.start.Sub(w.lastHBOp)
+		}
+		w.beats = append(w.beats, b)
+		w.lastHBOp = now
+	case op.Client == "holder" && op.Path == w.hbPath && op.Kind == "chtimes":
+		// the sign of life is complete once its time stamp has been set: until then the file may still carry the
+		// time at which a (possibly long) write began
+		if n := len(w.beats); n > 0 && w.beats[n-1].end.IsZero() && op.Err == "" {
 			w.beats[n-1].end = now
 		}
+		w.lastHBOp = now
+	case op.Client == "holder" && op.Path == w.hbPath:
+		w.lastHBOp = now
 	case op.Client == "holder" && op.Path == w.lockDir && op.Kind == "chtimes" && op.Err == "":
 		w.dirStamp = now
 	case op.Client != "holder" && op.Path == w.lockDir && op.Kind == "lstat":
@@ -371,20 +387,35 @@ func checkCase(t ev.T, test string, c Case) {
 			inconclusive = true
 		}
 	}
-	// "while the holder is alive ... the heartbeat is refreshed every period": judged when nothing holds the process up
+	// "while the holder is alive ... the heartbeat is refreshed every period". A single long gap cannot be told apart from
+	// the machine holding one goroutine up (disk stalls inside an operation are excluded by measuring only the idle time
+	// between operations, scheduling stalls by the monitor, but a page fault of this goroutine alone is invisible): the
+	// clause is judged on the *shortest* idle time of a run of at least four heart-beats - if even the quickest of them
+	// overshoots the period by 30 ms, the library, not the machine, is late.
 	if !dead && c.Load == 0 && c.SlowWriteMs == 0 && time.Duration(maxGap.Load()) < 15*time.Millisecond && len(findings) == 0 {
 		w.mu.Lock()
+		shortest, n, longest := time.Duration(0), 0, time.Duration(0)
 		for i := 1; i < len(w.beats); i++ {
 			if r := releasing.Load(); r != 0 && w.beats[i].start.After(time.Unix(0, r)) {
 				break
 			}
-			if g := w.beats[i].start.Sub(w.beats[i-1].start); g > period+30*time.Millisecond {
-				findings = append(findings, finding{fmt.Sprintf("the heart-beat of the live holder is not refreshed every period: %v between two consecutive heart-beats (period %v), with no load and no scheduling gap above %v", g.Round(time.Millisecond), period, time.Duration(maxGap.Load()).Round(time.Millisecond))})
-				inconclusive = false
-				break
+			g := w.beats[i].idleBefore
+			if n == 0 || g < shortest {
+				shortest = g
 			}
+			if g > longest {
+				longest = g
+			}
+			n++
 		}
 		w.mu.Unlock()
+		if longest > period+30*time.Millisecond {
+			ev.Class("a heart-beat came late (single gaps are not judged)")
+		}
+		if n >= 4 && shortest > period+30*time.Millisecond {
+			findings = append(findings, finding{fmt.Sprintf("the heart-beat of the live holder is not refreshed every period: over %d consecutive heart-beats the holder never idled less than %v between two of them (period %v), with no load and no scheduling gap above %v", n+1, shortest.Round(time.Millisecond), period, time.Duration(maxGap.Load()).Round(time.Millisecond))})
+			inconclusive = false
+		}
 	}
 	if inconclusive {
 		ev.Inconclusive("heart-beat or observer held up for more than a period (machine load)")
